@@ -634,6 +634,19 @@ def const_term(k):
     return ("const", d)
 
 
+def mk_bin(op, a, b):
+    """integer constant folding for comparisons against `CONST + 1`-style expressions"""
+    if isinstance(a, tuple) and isinstance(b, tuple) and a and b and a[0] == "int" and b[0] == "int":
+        x, y = a[1], b[1]
+        if op == "Add":
+            return ("int", x + y)
+        if op == "Sub":
+            return ("int", x - y)
+        if op == "Mul":
+            return ("int", x * y)
+    return ("bin", op, a, b)
+
+
 def mk_field(t, name):
     if isinstance(t, tuple) and t:
         if t[0] == "agg":
@@ -647,7 +660,7 @@ def mk_field(t, name):
                 pass
         if t[0] == "ovf":  # (a op b, overflowed)
             if name == "0":
-                return ("bin", t[1], t[2], t[3])
+                return mk_bin(t[1], t[2], t[3])
             return ("ovf_flag", t[1], t[2], t[3])
         if t[0] == "phi":
             alts = tuple(sorted({mk_field(x, name) for x in t[1]}, key=repr))
@@ -851,7 +864,7 @@ class Terms:
             op = rv["op"]
             if op.endswith("WithOverflow"):
                 return ("ovf", op[: -len("WithOverflow")], a, c)
-            return ("bin", op, a, c)
+            return mk_bin(op, a, c)
         if k == "un":
             return ("un", rv["op"], self.operand(rv["a"]))
         if k == "discr":
